@@ -12,8 +12,8 @@ from ..sched import run_scheduled
 
 ID = "C14"
 LEVEL = "exploration"
-BUDGET = {"quick": 1000, "thorough": 30000}
-SHARDS = {"quick": 8, "thorough": 16}
+BUDGET = {"quick": 2992, "thorough": 30000}
+SHARDS = {"quick": 16, "thorough": 16}
 RULE = (
     "Hypothesis-generated acyclic programs (3-7 nodes) in which 1-3 nodes are interrupts (single and multi output, optional "
     "rename_inputs, optional emit with a waiting node), handlers drawn in {pause, auto-value}, concurrent siblings in the "
